@@ -676,7 +676,7 @@ class PUBCOMP(object):
         '''
         header    = bytearray(1)
         varHeader = encode16Int(self.msgId)
-        header[0] = 0x72 
+        header[0] = 0x70 
         header.extend(encodeLength(len(varHeader)))
         header.extend(varHeader)
         self.encoded = header
